@@ -8,6 +8,12 @@ func unitDispatch(name string, args []string, out *bufio.Writer) bool {
 	case "unit-sketch":
 		unitSketch(args, out)
 		return true
+	case "unit-ring":
+		unitRing(args, out)
+		return true
+	case "conc-ring":
+		concRing(args, out)
+		return true
 	case "conc-policy":
 		concPolicy(args, out)
 		return true
